@@ -22,16 +22,46 @@ _PROJ = {}
 def proj(name):
     import cartopy.crs as ccrs
 
+    name = ALIASES.get(name, name)
+
     if not _PROJ:
         _PROJ["none"] = None
         _PROJ["pc180"] = ccrs.PlateCarree(central_longitude=180)
         _PROJ["rob"] = ccrs.Robinson()
         _PROJ["rob180"] = ccrs.Robinson(central_longitude=180)
         _PROJ["pc0"] = ccrs.PlateCarree()
+    if name not in _PROJ and name.split(":")[0] in ("ortho", "nsper"):
+        c = centre_of(name)
+        lo, la = lattice.lonlat_deg(c)
+        if name.startswith("ortho"):
+            _PROJ[name] = ccrs.Orthographic(central_longitude=lo, central_latitude=la)
+        else:
+            # one radius above the surface: the visible cap has cos = 1/2 (PolyCases.NodeVis)
+            _PROJ[name] = ccrs.NearsidePerspective(central_longitude=lo, central_latitude=la, satellite_height=6378137.0)
     return _PROJ[name]
 
 
+# partial projections are named "<kind>:<x>,<y>,<z>" (integer direction of the centre, y = 0); "ortho" alone is
+# the one used by the history part
+ALIASES = {"ortho": "ortho:3,0,1"}
+
+
+def centre_of(pname):
+    pname = ALIASES.get(pname, pname)
+    return [int(t) for t in pname.split(":")[1].split(",")]
+
+
+def is_partial(pname):
+    return ALIASES.get(pname, pname).split(":")[0] in ("ortho", "nsper")
+
+
 def cl_of(pname):
+    pname = ALIASES.get(pname, pname)
+    if is_partial(pname):
+        c = centre_of(pname)
+        if c[1] != 0:
+            raise ValueError("centre must lie on the meridian plane y = 0")
+        return 180 if c[0] < 0 else 0
     return 180 if pname in ("pc180", "rob180") else 0
 
 
@@ -109,15 +139,28 @@ class Targets:
                 out.append(0)
         return out
 
+    def table(self, system):
+        if system not in self.tab:
+            import cartopy.crs as ccrs
+
+            p = proj(system).transform_points(ccrs.PlateCarree(), self.lon, self.lat)
+            self.tab[system] = p[:, :2].copy()
+        return self.tab[system]
+
+    def nodenan(self, system):
+        t = self.table(system)
+        return [bool(not (math.isfinite(a) and math.isfinite(b))) for a, b in t]
+
     def system(self, pname, projected):
         """name of the coordinate table for projection `pname`, explicitly projected or only seam-shifted"""
-        if projected and pname in ("rob", "rob180"):
+        pname = ALIASES.get(pname, pname)
+        if projected and (pname in ("rob", "rob180") or is_partial(pname)):
             return pname
         return "ll180" if cl_of(pname) == 180 else "ll0"
 
     def match(self, xy, system):
         """coordinates (P, 2) -> list of [n, s]"""
-        t = self.tab[system]
+        t = self.table(system)
         xy = np.asarray(xy, dtype=float).reshape(-1, 2)
         out = []
         lonlat = system.startswith("ll")
@@ -157,6 +200,10 @@ def call(g, das, ev):
         if not ev.get("project", True):
             kw["project"] = False
         tgt = g if act == "ToGdf" else das[ev["var"]]
+        if act == "ToGdf" and "xnan" in ev:
+            # the NaN handling arguments of Grid.to_geodataframe: returns (frame, non_nan_polygon_indices)
+            gdf, nn = tgt.to_geodataframe(exclude_nan_polygons=ev["xnan"], return_non_nan_polygon_indices=True, **kw)
+            return gdf, ("nn", None if nn is None else [int(x) for x in np.asarray(nn).ravel()])
         return tgt.to_geodataframe(**kw), None
     if act in ("ToPoly", "DataToPoly"):
         kw = dict(periodic_elements=ev["pe"], projection=p, cache=ev["cache"], override=ev["override"])
@@ -187,12 +234,22 @@ def raw_rows(obj, kind):
         col = obj["geometry"]
         vals = col.values
         for i in range(len(vals)):
-            sh = _shapely_of(vals[i])
-            parts = list(sh.geoms) if sh.geom_type.startswith("Multi") else [sh]
+            el = vals[i]
             pcs = []
-            for q in parts:
-                pcs.append(np.asarray(q.exterior.coords, dtype=float)[:, :2])
-                holes += len(q.interiors)
+            if hasattr(el, "to_shapely"):
+                # spatialpandas: read the ring buffers directly (shapely refuses rings containing NaN)
+                nested = el.data.as_py()
+                polys = nested if type(el).__name__ == "MultiPolygon" else [nested]
+                for rings in polys:
+                    if not rings:
+                        continue
+                    pcs.append(np.asarray(rings[0], dtype=float).reshape(-1, 2))
+                    holes += len(rings) - 1
+            else:
+                parts = list(el.geoms) if el.geom_type.startswith("Multi") else [el]
+                for q in parts:
+                    pcs.append(np.asarray(q.exterior.coords, dtype=float)[:, :2])
+                    holes += len(q.interiors)
             rows.append(pcs)
         for c in obj.columns:
             if c != "geometry":
@@ -395,7 +452,11 @@ def replay_trace(job):
                     st["err"] = "edit: %s: %s" % (type(e).__name__, str(e)[:120])
         else:
             try:
-                obj, owner = call(g, das, ev)
+                if ev.get("via") == "accessor":
+                    obj, st["argok"] = accessor_call(g, das, ev)
+                    owner = None
+                else:
+                    obj, owner = call(g, das, ev)
                 oid = id(obj)
                 if oid in index and objs[index[oid] - 1] is obj:
                     st["r"] = index[oid]
@@ -418,3 +479,108 @@ def replay_trace(job):
         st["o"] = o
         steps.append(st)
     return {"id": job["id"], "steps": steps}
+
+
+# ----------------------------------------------------------------------------- larger meshes
+def cubed_sphere(n, split_every=3):
+    """Gnomonic cubed sphere with n x n cells per panel on the integer lattice (corner coordinates -n, -n+2, .., n;
+    n odd, so that no node lies on an axis, a pole or the seam); every `split_every`-th cell is cut into two
+    triangles (mixed face sizes).  Well-formedness (convex, counter-clockwise, distinct nodes) is checked by TLC
+    (PolyGen.LawWellFormed), not assumed."""
+    assert n % 2 == 1
+    cs = [-n + 2 * i for i in range(n + 1)]
+    ids, nodes, faces = {}, [], []
+
+    def nid(v):
+        v = tuple(v)
+        if v not in ids:
+            ids[v] = len(nodes)
+            nodes.append(list(v))
+        return ids[v]
+
+    cnt = 0
+    for a in range(3):
+        b, c = (a + 1) % 3, (a + 2) % 3
+        for s in (1, -1):
+            for i in range(n):
+                for j in range(n):
+                    q = []
+                    for (u, w) in ((cs[i], cs[j]), (cs[i + 1], cs[j]), (cs[i + 1], cs[j + 1]), (cs[i], cs[j + 1])):
+                        v = [0, 0, 0]
+                        v[a], v[b], v[c] = s * n, u, w
+                        q.append(nid(v))
+                    if s < 0:
+                        q = [q[0], q[3], q[2], q[1]]
+                    cnt += 1
+                    centre = cs[i] < 0 < cs[i + 1] and cs[j] < 0 < cs[j + 1]     # its diagonal would pass through an axis / a pole
+                    if split_every and cnt % split_every == 0 and not centre:
+                        faces.append([q[0], q[1], q[2]])
+                        faces.append([q[0], q[2], q[3]])
+                    else:
+                        faces.append(q)
+    sizes = sorted({len(f) for f in faces})
+    return {"name": "cubed%d" % n, "rot": 0, "cut": 0, "nodes": nodes, "faces": faces, "closed": True, "sizes": sizes,
+            "valences": [], "sides_below_90": True, "n_edge": 0}
+
+
+# ----------------------------------------------------------------------------- plotting accessors
+class Spy:
+    """Records, for the duration of a `with` block, the arguments and the result of every
+    Grid.to_geodataframe / UxDataArray.to_geodataframe call (harness-side wrapper, the package is not touched)."""
+
+    def __enter__(self):
+        ux = hux.import_ux()
+        self.calls = []
+        self._orig = (ux.Grid.to_geodataframe, ux.UxDataArray.to_geodataframe)
+        spy = self
+
+        def wrap(level, fn):
+            def inner(obj, *a, **kw):
+                r = fn(obj, *a, **kw)
+                spy.calls.append((level, a, dict(kw), r))
+                return r
+
+            return inner
+
+        ux.Grid.to_geodataframe = wrap("grid", self._orig[0])
+        ux.UxDataArray.to_geodataframe = wrap("data", self._orig[1])
+        return self
+
+    def __exit__(self, *exc):
+        ux = hux.import_ux()
+        ux.Grid.to_geodataframe, ux.UxDataArray.to_geodataframe = self._orig
+        return False
+
+
+def accessor_call(g, das, ev):
+    """The plotting-accessor route of a GeoDataFrame conversion: grid.plot.edges(...) / uxda.plot.polygons(...).
+    Returns (frame handed to hvplot, the accessor passed exactly the arguments of ev with project=False)."""
+    kw = dict(periodic_elements=ev["pe"], engine=ENGINES[ev["eng"]])
+    if ev["proj"] != "default":
+        kw["projection"] = proj(ev["proj"])
+    with Spy() as sp:
+        if ev["act"] == "ToGdf":
+            g.plot.edges(**kw)
+        else:
+            das[ev["var"]].plot.polygons(**kw)
+    level = "grid" if ev["act"] == "ToGdf" else "data"
+    mine = [c for c in sp.calls if c[0] == level]
+    if len(mine) != 1:
+        return (mine[-1][3] if mine else None), False
+    _, a, k, frame = mine[0]
+    want = proj("pc0") if ev["proj"] == "default" else proj(ev["proj"])
+    ok = (not a and k.get("periodic_elements") == ev["pe"] and k.get("engine") == ENGINES[ev["eng"]]
+          and k.get("project") is False and k.get("projection") == want
+          and not k.get("override", False) and k.get("cache", True))
+    if isinstance(frame, tuple):
+        frame = frame[0]
+    return frame, bool(ok)
+
+
+def warm_accessors(entry):
+    """hvplot / geoviews initialise on first use (several seconds): do it once, before any timing or fork."""
+    g = make_grid(entry, 1)
+    try:
+        g.plot.edges(projection=proj("rob"))
+    except Exception:  # noqa
+        pass
